@@ -6,6 +6,7 @@ import (
 	"encoding/json"
 	"errors"
 	"fmt"
+	"sort"
 	"strings"
 
 	"ariga.io/atlas/sql/migrate"
@@ -28,6 +29,11 @@ type c09Case struct {
 	// N[i] is the count argument of attempt i (ExecuteN(n): at most n pending files; 0 = all). The
 	// final clean attempt always runs everything.
 	N []int `json:"n,omitempty"`
+	// Vers gives the version of each file (default: 1, 2, 3 …). Files run in the order of their NAMES
+	// (a string order: "10" sorts before "9"). Ck marks checkpoint files: on a database without history
+	// the run starts at the last checkpoint and everything before it is never executed.
+	Vers []string `json:"versions,omitempty"`
+	Ck   []bool   `json:"checkpoint,omitempty"`
 }
 
 func init() {
@@ -49,30 +55,57 @@ func init() {
 	}})
 }
 
-func c09Dir(shape []int) (*migrate.MemDir, []string, map[string]string) {
-	dir := &migrate.MemDir{}
-	var canon []string
-	fileOf := map[string]string{}
-	for f, n := range shape {
+func c09Dir(cs c09Case) (dir *migrate.MemDir, canon []string, fileOf map[string]string, run []string, size map[string]int) {
+	dir = &migrate.MemDir{}
+	fileOf = map[string]string{}
+	size = map[string]int{}
+	type fl struct {
+		ver   string
+		stmts []string
+		ck    bool
+	}
+	var files []fl
+	for f, n := range cs.Shape {
+		ver := fmt.Sprint(f + 1)
+		if f < len(cs.Vers) {
+			ver = cs.Vers[f]
+		}
+		x := fl{ver: ver, ck: f < len(cs.Ck) && cs.Ck[f]}
 		var b strings.Builder
+		if x.ck {
+			b.WriteString("-- atlas:checkpoint\n\n")
+		}
 		for s := 0; s < n; s++ {
-			st := fmt.Sprintf("S_%d_%d;", f+1, s+1)
-			canon = append(canon, st)
-			fileOf[st] = fmt.Sprint(f + 1)
+			st := fmt.Sprintf("S_%s_%d;", ver, s+1)
+			x.stmts = append(x.stmts, st)
+			fileOf[st] = ver
 			b.WriteString(st + "\n")
 		}
-		dir.WriteFile(fmt.Sprintf("%d_f.sql", f+1), []byte(b.String()))
+		size[ver] = n
+		dir.WriteFile(ver+"_f.sql", []byte(b.String()))
+		files = append(files, x)
+	}
+	sort.Slice(files, func(i, j int) bool { return files[i].ver+"_f.sql" < files[j].ver+"_f.sql" })
+	start := 0
+	for i, x := range files {
+		if x.ck {
+			start = i
+		}
+	}
+	for _, x := range files[start:] {
+		canon = append(canon, x.stmts...)
+		run = append(run, x.ver)
 	}
 	sum, _ := dir.Checksum()
 	migrate.WriteSumFile(dir, sum)
-	return dir, canon, fileOf
+	return
 }
 
 // c09Run executes the attempts (each fault, then a clean run) against the real executor and checks
 // the history online. It returns the reason and key of the first violation ("" if it held) and the
 // printed event trace.
 func c09Run(cs c09Case) (why, key string, trace []string) {
-	dir, canon, fileOf := c09Dir(cs.Shape)
+	dir, canon, fileOf, runFiles, size := c09Dir(cs)
 	w := world.New()
 	attempts := append(append([]c09Fault(nil), cs.Faults...), c09Fault{})
 	okCount := map[string]int{}  // successful execs per statement
@@ -162,11 +195,15 @@ func c09Run(cs c09Case) (why, key string, trace []string) {
 			if len(order) != len(canon) {
 				return fmt.Sprintf("final: executed %d of %d statements", len(order), len(canon)), "lost-statement", nil
 			}
-			for f, n := range cs.Shape {
-				r := w.Revs[fmt.Sprint(f+1)]
+			for _, ver := range runFiles {
+				n := size[ver]
+				r := w.Revs[ver]
 				if r == nil || r.Applied != n || r.Total != n || r.Error != "" {
-					return fmt.Sprintf("final: revision %d = %s", f+1, world.SemRev(r)), "final-revision", nil
+					return fmt.Sprintf("final: revision %s = %s", ver, world.SemRev(r)), "final-revision", nil
 				}
+			}
+			if len(w.Revs) != len(runFiles) {
+				return fmt.Sprintf("final: %d revisions for %d files that had to run %v", len(w.Revs), len(runFiles), runFiles), "final-revision-set", nil
 			}
 			onlyExec := true
 			for _, ft := range cs.Faults {
@@ -184,6 +221,17 @@ func c09Run(cs c09Case) (why, key string, trace []string) {
 		}
 	}
 	return "", "", nil
+}
+
+func prefixVersions(cs c09Case) bool {
+	for i, a := range cs.Vers {
+		for j, b := range cs.Vers {
+			if i != j && a != b && strings.HasPrefix(b, a) {
+				return true
+			}
+		}
+	}
+	return false
 }
 
 func runC09(c *rt.Ctx) {
@@ -250,10 +298,59 @@ func runC09(c *rt.Ctx) {
 		}
 	}
 	_ = nf
+	// Versions of different width (name order is a string order), checkpoint directories, and one
+	// large file (progress of a long file must be recorded statement by statement).
+	single := func(sh []int) (fs []c09Fault) {
+		n := 0
+		for _, x := range sh {
+			n += x
+		}
+		fs = append(fs, c09Fault{})
+		for k := 1; k <= n+1; k++ {
+			fs = append(fs, c09Fault{Exec: k})
+		}
+		for k := 1; k <= 2*n+3*len(sh)+2; k++ {
+			fs = append(fs, c09Fault{Write: k})
+		}
+		return
+	}
+	type extra struct {
+		sh   []int
+		vers []string
+		ck   []bool
+	}
+	for _, e := range []extra{
+		{[]int{2, 2}, []string{"9", "10"}, nil},
+		{[]int{1, 2, 2}, []string{"1", "10", "2"}, nil},
+		{[]int{2, 1, 2}, []string{"99", "100", "101"}, nil},
+		{[]int{3}, nil, []bool{true}},
+		{[]int{2, 3}, nil, []bool{false, true}},
+		{[]int{2, 2, 2}, nil, []bool{true, false, false}},
+		{[]int{1, 2, 2, 1}, nil, []bool{true, false, true, false}},
+	} {
+		fs := single(e.sh)
+		for _, f1 := range fs {
+			for _, f2 := range fs {
+				cases = append(cases, c09Case{Shape: e.sh, Faults: []c09Fault{f1, f2}, Vers: e.vers, Ck: e.ck})
+				cases = append(cases, c09Case{Shape: e.sh, Faults: []c09Fault{f1, f2}, Vers: e.vers, Ck: e.ck, N: []int{1, 1}})
+			}
+		}
+	}
+	big := []int{70}
+	for k := 1; k <= 72; k += 5 {
+		cases = append(cases, c09Case{Shape: big, Faults: []c09Fault{{Write: k}, {}}}, c09Case{Shape: big, Faults: []c09Fault{{Exec: k}, {}}})
+		cases = append(cases, c09Case{Shape: big, Faults: []c09Fault{{Write: k}, {Write: 7}}})
+	}
 	c.Par(len(cases), func(i int, w *rt.W) {
 		cs := cases[i]
 		w.Begin(cs)
 		why, key, trace := c09Run(cs)
+		if why != "" && prefixVersions(cs) {
+			// a class of its own: when one version is a proper prefix of another ("1" and "10") the
+			// order of the file NAMES ("10_f.sql" < "1_f.sql", because '0' < '_') is not the order of
+			// the VERSIONS ("1" < "10"), and the executor uses both.
+			key += "|version-is-prefix-of-another"
+		}
 		c.Count("events", int64(len(trace)))
 		nfault := 0
 		for _, f := range cs.Faults {
